@@ -40,7 +40,7 @@ func (s *sequenceNumberGenerator) Next() uint32 {
 	return atomic.AddUint32(&s.Current, 1)
 }
 
-func (s sequenceNumberGenerator) CurrentValue() uint32 {
+func (s *sequenceNumberGenerator) CurrentValue() uint32 {
 	return atomic.LoadUint32(&s.Current)
 }
 
